@@ -37,13 +37,24 @@ def check_trace(tr, outcome, apps=('vapp', 'wapp', 'xapp'), ignore_tables=()):
         problems.append('evolved/evolving_failed without evolving')
     # pairs and payloads
     open_pair = None
+    group = []
+    batch = False
     for e in ev:
         if e[0] == 'signal':
             name, info = e[1], e[2]
+            if name == 'creating_models' and open_pair is not None and open_pair[0] == 'creating_models' and \
+                    info.get('app') not in [g.get('app') for g in group]:
+                # the models of several apps are created in ONE batch: every creating_models is sent before the first
+                # table is created, every created_models after the last (finding F63) - the pairs overlap, and each
+                # brackets the other apps' statements
+                group.append(info)
+                batch = True
+                continue
             if name in ('applying_evolution', 'creating_models', 'applying_migration'):
                 if open_pair is not None:
                     problems.append('%s while %s is still open' % (name, open_pair[0]))
                 open_pair = (name, info)
+                group = [info] if name == 'creating_models' else []
                 if name == 'applying_evolution':
                     # the evolutions a task announces are its own app's, each once
                     labels = info.get('evolutions', [])
@@ -55,11 +66,19 @@ def check_trace(tr, outcome, apps=('vapp', 'wapp', 'xapp'), ignore_tables=()):
             elif name in ('applied_evolution', 'created_models', 'applied_migration'):
                 want = {'applied_evolution': 'applying_evolution', 'created_models': 'creating_models',
                         'applied_migration': 'applying_migration'}[name]
+                if name == 'created_models' and len(group) > 1:
+                    # a batch of several apps closes in the order it was opened, each with its own payload
+                    if group[0] != info:
+                        problems.append('created_models carries %r but creating_models carried %r' % (info, group[0]))
+                    group = group[1:]
+                    open_pair = ('creating_models', group[0])
+                    continue
                 if open_pair is None or open_pair[0] != want:
                     problems.append('%s without %s' % (name, want))
                 elif open_pair[1] != info:
                     problems.append('%s carries %r but %s carried %r' % (name, info, want, open_pair[1]))
                 open_pair = None
+                group = []
             elif name in ('evolved',) and open_pair is not None:
                 problems.append('evolved while %s is open' % open_pair[0])
         elif e[0] == 'sql':
@@ -71,10 +90,13 @@ def check_trace(tr, outcome, apps=('vapp', 'wapp', 'xapp'), ignore_tables=()):
                 problems.append('statement outside any applying/creating pair: %s' % e[1][:70])
             if touched and open_pair is not None and open_pair[0] in ('applying_evolution', 'creating_models'):
                 app = open_pair[1].get('app')
-                if app and not any(('"%s_' % app) in e[1] for _ in [0]) and 'REFERENCES' not in e[1]:
+                batch_apps = [g.get('app') for g in group] if open_pair[0] == 'creating_models' else []
+                if app and not any(('"%s_' % x) in e[1] for x in [app] + batch_apps) and 'REFERENCES' not in e[1]:
                     problems.append('%s of %s brackets a statement on another app: %s' % (open_pair[0], app, e[1][:60]))
     if outcome == 'ok' and open_pair is not None:
         problems.append('%s never closed in a successful run' % open_pair[0])
+    if batch:
+        problems.append('F63: the creating_models/created_models pairs of several apps overlap (models created in one batch)')
     return problems
 
 
@@ -102,10 +124,19 @@ def lock_value():
 def run(ctx):
     evorig.setup()
     quick = ctx.tier == 'quick'
+    plain_fail = ctx.fail
+
+    def fail(fid, what, rep):
+        # check_trace marks what finding F63 explains (overlapping creating/created pairs of a multi-app batch)
+        if 'F63: ' in what:
+            return plain_fail('F63', what.split('F63: ', 1)[1], rep)
+        return plain_fail(fid, what, rep)
+    ctx.fail = fail
     ctx.rule = ('runs of generated upgrades (1-3 mutations, optionally a new model) plus the baseline install and a '
                 'nothing-to-do run, each fault-free and with an injected failure at EVERY write-statement index; '
                 'non-trivial = the trace has at least one applying/creating pair; distinct by (case, k)')
     shared_label_runs(ctx)
+    two_app_new_model_runs(ctx)
     other_database_runs(ctx)
     migration_runs(ctx, quick)
     migration_app_runs(ctx)
@@ -291,6 +322,69 @@ class _Shim(object):
         self.events = [tuple(e) for e in events]
 
 
+def after_fault_problems(tr, outcome):
+    """nothing is announced as applied / created / evolved after the failing statement"""
+    if outcome != 'error':
+        return []
+    idx = [i for i, e in enumerate(tr.events) if e[0] == 'fault']
+    if not idx:
+        return []
+    after = [e[1] for e in tr.events[idx[0]:] if e[0] == 'signal']
+    return ['%s emitted after the failing statement' % s for s in after
+            if s in ('applied_evolution', 'created_models', 'applied_migration', 'evolved')][:1]
+
+
+def two_app_new_model_runs(ctx):
+    """two apps that each get a new model (one of them with a many-to-many field) in the same upgrade: the models of
+    both are created in one batch; fault-free and with a fault at every write"""
+    import random
+    from .. import dbrig
+
+    def fld(name, t, related=None, **attrs):
+        return {'name': name, 'type': t, 'attrs': attrs, 'related': related}
+
+    def mdl(app, name, fields):
+        return {'name': name, 'table': '%s_%s' % (app, name.lower()), 'unique_together': [], 'index_together': [],
+                'indexes': [], 'constraints': [], 'fields': [fld('id', 'AutoField', primary_key=True)] + fields}
+    a0 = mdl('vapp', 'Alpha', [fld('a', 'IntegerField', null=True)])
+    w0 = mdl('wapp', 'Wal', [fld('w', 'IntegerField', null=True)])
+    spec0 = {'apps': [{'id': 'vapp', 'models': [a0]}, {'id': 'wapp', 'models': [w0]}]}
+    spec1 = {'apps': [{'id': 'vapp', 'models': [a0, mdl('vapp', 'Newt', [fld('n', 'IntegerField', null=True),
+                                                                        fld('pals', 'ManyToManyField', 'vapp.Alpha')])]},
+                      {'id': 'wapp', 'models': [w0, mdl('wapp', 'Newu', [fld('u', 'IntegerField', null=True, db_index=True)])]}]}
+
+    def start():
+        evorig.fresh_databases()
+        evorig.clear_evolutions()
+        evorig.install_models(spec0)
+        r = evorig.run_evolver()
+        dbrig.insert_rows(evorig.install_models(spec0), random.Random(7))
+        evorig.install_models(spec1)
+        return r[0] == 'ok'
+    if not start():
+        ctx.count('two_app_new_models:start_failed')
+        return
+    tr = evorig.Trace()
+    r = evorig.run_evolver(trace=tr)
+    rep0 = {'scenario': 'two apps, each with a new model, one run'}
+    ctx.count('two_app_new_models:run')
+    ctx.case(dict(rep0, fault=None, signals=[x[0] for x in tr.signals()]), nontrivial=True, sample_cap=2)
+    for p in check_trace(tr, r[0]) + saved_problems(tr):
+        ctx.fail(None, 'two apps with new models: %s' % p, dict(rep0, signals=tr.signals()))
+    n = len(tr.write_statements())
+    for k in range(n):
+        if ctx.time_left() < 20:
+            return
+        start()
+        trk = evorig.Trace(fail_at=k)
+        rk = evorig.run_evolver(trace=trk)
+        ctx.count('two_app_new_models:fault_runs')
+        ctx.case(dict(rep0, fault=k, signals=[x[0] for x in trk.signals()]), nontrivial=True, sample_cap=2)
+        for p in check_trace(trk, rk[0]) + saved_problems(trk) + after_fault_problems(trk, rk[0]):
+            ctx.fail(None, 'two apps with new models, fault at write #%d of %d: %s' % (k, n, p),
+                     dict(rep0, fault=k, signals=trk.signals(), failed_sql=trk.failed_sql))
+
+
 def other_database_runs(ctx):
     """the same upgrade on a second database (Evolver(database_name='other')), after the default one was
     upgraded: signals, and `evolved` => recorded THERE; the default database is not touched"""
@@ -360,7 +454,7 @@ def shared_label_runs(ctx):
         rk = evorig.run_evolver(trace=trk)
         ctx.count('shared_labels:fault_runs')
         ctx.case(dict(rep0, fault=k, signals=[x[0] for x in trk.signals()]), nontrivial=True, sample_cap=2)
-        for p in check_trace(trk, rk[0]) + saved_problems(trk):
+        for p in check_trace(trk, rk[0]) + saved_problems(trk) + after_fault_problems(trk, rk[0]):
             ctx.fail(None, 'shared labels, fault at write #%d of %d: %s' % (k, n, p),
                      dict(rep0, fault=k, signals=trk.signals(), failed_sql=trk.failed_sql))
 
